@@ -37,7 +37,9 @@ var tagLineRe = regexp.MustCompile(`(?://|/\*) s(\d+)\b`)
 // siteKeys maps diagnostics to layout-independent keys.
 // lineDirRe: a //line directive written by the harness. It renames the rest of
 // the file to zz_<name> so that adjusted positions are recognisable.
-var lineDirRe = regexp.MustCompile(`^//line (zz_[^:\s]+):(\d+)$`)
+// (written with a column, //line name:N:1: without one go/token reports column 0 for every later
+// position and inline tags of one-line pairs could no longer be told apart)
+var lineDirRe = regexp.MustCompile(`^//line (zz_[^:\s]+):(\d+)(?::\d+)?$`)
 
 // unshiftDiags maps diagnostics reported at //line-adjusted positions back to
 // the physical lines of the file that holds the directive.
